@@ -12,17 +12,21 @@ package parsigex
 // decoded message (C14; third-party methods called on decoded values are assumed not to panic on what the decoders
 // accept, with the exceptions recorded as findings).
 //@ func (m *ParSigEx) handle
-//@ props C10 C01 C14
+//@ props C10 C01 C14 C18
 //@ nopanic
 //@ safe nil
 //@ callreq sub: a2 == duty && duty == core.DutyFromProto(pb.GetDuty()) && m.gaterFunc(duty)
-//@ callreq sub: a3 == set && res(1, core.ParSignedDataSetFromProto(duty.Type, pb.GetDataSet())) == nil && set == res(0, core.ParSignedDataSetFromProto(duty.Type, pb.GetDataSet()))
+// Every subscriber gets its own clone of the verified set (F-C18b: they used to share the decoded set).
+//@ ghost cloneReady bool
+//@ ghostafter set.Clone: cloneReady = err == nil
+//@ ghostcall sub: cloneReady = false
+//@ callreq sub: a3 == clone && cloneReady && res(1, core.ParSignedDataSetFromProto(duty.Type, pb.GetDataSet())) == nil && set == res(0, core.ParSignedDataSetFromProto(duty.Type, pb.GetDataSet()))
 //@ callreq sub: forallk(pk, set, m.verifyFunc(ctx, sender, duty, pk, set[pk]) == nil)
 //@ ensures r2 != nil ==> ncalls(sub) == 0
 //@ canary r2 != nil
 //@ loop 1 invariant forall(t, 0, $i, m.verifyFunc(ctx, sender, duty, $ks[t], set[$ks[t]]) == nil)
 //@ loop 1 invariant ncalls(sub) == 0
-//@ loop 2 invariant true
+//@ loop 2 invariant !cloneReady
 
 //@ func NewEth2Verifier$1
 //@ props C10 C01
